@@ -513,6 +513,7 @@ pub fn check<P: Prop>(tier: Tier, seed: u64) -> Report {
         "exhaustive": false,
         "slowest_case": total.slowest.as_ref().map(|(t, v)| json!({"seconds": t, "case": v})),
     });
+    if let Ok(x) = std::env::var("YV_EXTRA_EVIDENCE") { if let (Some(o), Ok(Value::Object(m))) = (coverage.as_object_mut(), serde_json::from_str::<Value>(&x)) { for (k, v) in m { o.insert(k, v); } } }
     if let (Some(o), Some(e)) = (coverage.as_object_mut(), P::extra_coverage(tier).as_object()) {
         for (k, v) in e { o.insert(k.clone(), v.clone()); }
     }
